@@ -101,8 +101,27 @@ type pathState struct {
 	asserts   int
 	observed  []string
 	assertsSkipped int
+	known     map[*Term]bool
 	symbolic  bool // took at least one solver-decided branch
 	knownHit  string
+}
+
+func b2i(b bool) int64 {
+	if b {
+		return 1
+	}
+	return 0
+}
+
+// note records the truth value of a decided condition (and of its negation).
+func (p *pathState) note(c *Term, v bool) {
+	if p.known == nil {
+		p.known = make(map[*Term]bool)
+	}
+	p.known[c] = v
+	if c.op == OpBNot {
+		p.known[c.a] = !v
+	}
 }
 
 func (p *pathState) setModel(m Model) {
@@ -138,9 +157,21 @@ func (in *interpreter) branch(c *Term) bool {
 			in.solver.Assert(ts.BNot(c))
 		}
 		p.symbolic = true
+		p.note(c, out == 1)
 		return out == 1
 	}
 	p.pos++
+	// a condition already decided on this path (e.g. the same comparison made twice)
+	if v, ok := p.known[c]; ok {
+		p.decisions = append(p.decisions, dec{v: b2i(v)})
+		return v
+	}
+	if c.op == OpBNot {
+		if v, ok := p.known[c.a]; ok {
+			p.decisions = append(p.decisions, dec{v: b2i(!v)})
+			return !v
+		}
+	}
 	var tOK, fOK, haveT, haveF bool
 	var tModel, fModel Model
 	if p.model != nil {
@@ -179,21 +210,25 @@ func (in *interpreter) branch(c *Term) bool {
 			p.decisions = append(p.decisions, dec{v: 1})
 			in.solver.Assert(c)
 			p.setModel(tModel)
+			p.note(c, true)
 			return true
 		}
 		p.decisions = append(p.decisions, dec{v: 0})
 		in.solver.Assert(ts.BNot(c))
 		p.setModel(fModel)
+		p.note(c, false)
 		return false
 	case tOK:
 		p.decisions = append(p.decisions, dec{v: 1})
 		in.solver.Assert(c)
 		p.setModel(tModel)
+		p.note(c, true)
 		return true
 	case fOK:
 		p.decisions = append(p.decisions, dec{v: 0})
 		in.solver.Assert(ts.BNot(c))
 		p.setModel(fModel)
+		p.note(c, false)
 		return false
 	}
 	panic(pathEnd{kind: endInfeasible, msg: "both sides infeasible"})
@@ -538,6 +573,26 @@ func ndRaceDetect(fr *frame, args []value) value {
 
 func ndIsSymbolic(fr *frame, args []value) value { return true }
 
+func ndAnd(fr *frame, args []value) value { return fr.i.and(args[0], args[1]) }
+func ndOr(fr *frame, args []value) value  { return fr.i.or(args[0], args[1]) }
+func ndNot(fr *frame, args []value) value { return fr.i.not(args[0]) }
+
+// ndIte(c, a, b): a value-level conditional that does not fork.
+func ndIte(fr *frame, args []value) value {
+	in := fr.i
+	switch c := args[0].(type) {
+	case bool:
+		if c {
+			return args[1]
+		}
+		return args[2]
+	case *Term:
+		t := fr.fn.Signature.Results().At(0).Type()
+		return fromTerm(in.ts.Ite(c, in.termOf(args[1]), in.termOf(args[2])), t)
+	}
+	panic("ndIte")
+}
+
 func init() {
 	base := "github.com/facebookincubator/dns/dnsrocks/zzverif/nd."
 	for name, f := range map[string]externalFn{
@@ -545,6 +600,7 @@ func init() {
 		"Float64": ndFloat64, "Bytes": ndBytes, "Choice": ndChoice, "Param": ndParam, "Assume": ndAssume, "Assert": ndAssert,
 		"Known": ndKnown, "Observe": ndObserve, "Yield": ndYield, "SchedExplore": ndSchedExplore,
 		"RaceDetect": ndRaceDetect, "Symbolic": ndIsSymbolic,
+		"And": ndAnd, "Or": ndOr, "Not": ndNot, "IteInt": ndIte, "IteU8": ndIte, "IteU32": ndIte, "IteBool": ndIte,
 	} {
 		externals[base+name] = f
 		externals["github.com/repustate/go-cdb/zzverif/nd."+name] = f
